@@ -135,6 +135,20 @@ Proof.
   destruct E as [E1 E2]. rewrite E1, app_nil_r, E2. cbn [filter]. now rewrite N.
 Qed.
 
+(* the specification's tokens are what the code's padding + split() produce *)
+Lemma lex_raw_split s : lex_raw s = split_raw (pad s).
+Proof.
+  induction s as [|c t IH]; [reflexivity|]. change (pad (c :: t)) with (pad_char c ++ pad t). cbn [lex_raw].
+  destruct (is_ws c) eqn:W.
+  - rewrite (ws_pad c W). cbn [app]. rewrite split_raw_ws by exact W. now rewrite IH.
+  - unfold pad_char, is_paren. destruct ((c =? 40) || (c =? 41)) eqn:P.
+    + cbn [app]. rewrite split_raw_ws by reflexivity. rewrite split_raw_nws by exact W. rewrite split_raw_ws by reflexivity.
+      cbn [hd tl]. now rewrite IH.
+    + cbn [app]. rewrite split_raw_nws by exact W. rewrite IH. rewrite (split_raw_hdtl (pad t)) at 1. reflexivity.
+Qed.
+Lemma spdx_tokens_split s : spdx_tokens s = split_ws (pad s).
+Proof. unfold spdx_tokens, split_ws. now rewrite lex_raw_split. Qed.
+
 (* ---------------------------------------------------------------- the two final replaces *)
 Lemma rep2_ne a b new c t : (c =? a) = false -> rep2 a b new (c :: t) = c :: rep2 a b new t.
 Proof. intros H. destruct t; cbn [rep2]; [reflexivity|]. now rewrite H. Qed.
